@@ -36,15 +36,15 @@ type item struct {
 // stub is the data source. Its read blocks (durably, on a bubble channel)
 // until the controller supplies the next item.
 type stub struct {
-	feed      chan item
-	pending   bool
-	reads     int
-	zeroCopy  bool
-	shared    []byte
-	afterTerm int // reads that started after a terminal error was returned
-	termSeen  bool
-	lastRet   time.Time
-	cancelled func() bool
+	feed                 chan item
+	pending              bool
+	reads                int
+	zeroCopy             bool
+	shared               []byte
+	afterTerm            int // reads that started after a terminal error was returned
+	termSeen             bool
+	lastRet              time.Time
+	cancelled            func() bool
 	readsAfterCancelDone int
 }
 
@@ -110,8 +110,8 @@ func simC16(c *sim.Ctx) {
 		} else {
 			ps = gopacket.NewPacketSource(st, gopacket.DecodePayload, opts...)
 		}
-		var sent []item      // packets the stub returned without error, in order
-		var recv []got       // what the consumer obtained
+		var sent []item       // packets the stub returned without error, in order
+		var recv []got        // what the consumer obtained
 		var origData [][]byte // bytes of each received packet at reception
 		closed := false
 		ctx, cancel := context.WithCancel(context.Background())
